@@ -746,6 +746,69 @@ def k_goflags_tags(P, c):
     P.spec["gate_by_tags"] = True
 
 
+def k_namespace_twins(P, c):
+    """near-miss twins with SIZE as a dimension: the magefile and a bare (sometimes also an aliased) import declare a
+    same-named namespace with disjoint methods; 1..9 local targets; the shared namespace first / in the middle / last
+    in go/doc's order (types by name, then functions by name), ending at count e of n targets - accepted, every name
+    runs its own definition; collision: the imported namespace also has one of the local methods"""
+    rng = P.rng
+    if rng.random() < 0.6:
+        # sizes at which Go's append has spare capacity behind the namespace's last target (4 and 8 elements)
+        e, n = rng.choice([(3, 4), (3, 4), (5, 6), (5, 7), (5, 8), (6, 7), (6, 8), (7, 8), (2, 4), (1, 2)])
+    else:
+        n = rng.randint(1, 9)
+        e = rng.randint(1, n)
+    k = rng.randint(1, min(3, e))
+    before, after = e - k, n - e
+    shared = "Mm" if before else rng.choice(["Aa", "Mm"])
+    for _ in range(before):
+        P.local("Aa", rcase(rng, P.word()))
+    ms = []
+    for _ in range(k):
+        w = rcase(rng, P.word())
+        if P.local(shared, w):
+            ms.append(w)
+    later_ns = rng.randint(0, after) if rng.random() < 0.5 else 0
+    for _ in range(later_ns):
+        P.local("Zz", rcase(rng, P.word()))
+    for _ in range(after - later_ns):
+        P.local("", rcase(rng, P.word()))
+    i = P.imp("")
+    for _ in range(rng.choice([1, 2, 3])):
+        P.itgt(i, shared, rcase(rng, P.word()))
+    if rng.random() < 0.5:
+        P.itgt(i, "", rcase(rng, P.word()))
+    if rng.random() < 0.4 and ms:
+        P.itgt(P.imp(P.ial()), shared, ms[0])            # same namespace AND method under an alias: al:ns:m is another name
+    if rng.random() < 0.3 and ms and n < 9:
+        P.local("Qq", ms[0])                              # the same method name in another namespace
+    if c and ms:
+        P.itgt(i, shared, rcase(rng, ms[0]))
+
+
+def k_twins_misc(P, c):
+    """same-named functions in different namespaces and packages, one alias key per import for equal targets:
+    everything shared but the qualifying part - accepted; collision: two namespaces differing in case only"""
+    rng = P.rng
+    w = P.word()
+    n1, n2 = P.nsword(), P.nsword()
+    P.local(n1, rcase(rng, w))
+    P.local(n2, rcase(rng, w))
+    P.local("", rcase(rng, w))
+    (a, ta), (b, tb) = P.ialias(), P.ialias()
+    i, j = P.imp(a, ta), P.imp(b, tb)
+    di = P.itgt(i, "", rcase(rng, w))
+    dj = P.itgt(j, "", rcase(rng, w))
+    P.itgt(i, n1, rcase(rng, w))
+    P.itgt(j, n1, rcase(rng, w))
+    P.alias(rcase(rng, a[0] + w, False), di)
+    P.alias(rcase(rng, b[0] + w + "2", False), dj)
+    for _ in range(rng.randint(0, 3)):
+        P.local("", rcase(rng, P.word()))
+    if c:
+        P.local(variant(rng, n1), rcase(rng, w))
+
+
 KINDS = [("fn_case", k_fn_case), ("method_case", k_method_case), ("namespace_case", k_namespace_case),
          ("fn_vs_method", k_fn_vs_method), ("two_imports_one_alias", k_two_imports_one_alias),
          ("same_name_two_aliases", k_same_name_two_aliases), ("root_vs_local", k_root_vs_local), ("two_roots", k_two_roots),
@@ -758,7 +821,11 @@ KINDS = [("fn_case", k_fn_case), ("method_case", k_method_case), ("namespace_cas
          ("decoys", k_decoys), ("decoy_across", k_decoy_across),
          ("imported_aliases", k_imported_aliases), ("named_import_same_names", k_named_import_same_names),
          ("alias_case", k_alias_case), ("alias_key_spelling", k_alias_key_spelling),
-         ("nonascii_case", k_nonascii_case), ("nonascii_case", k_nonascii_case), ("goflags_tags", k_goflags_tags)]
+         ("nonascii_case", k_nonascii_case), ("nonascii_case", k_nonascii_case), ("goflags_tags", k_goflags_tags),
+         ("namespace_twins", k_namespace_twins), ("namespace_twins", k_namespace_twins), ("namespace_twins", k_namespace_twins),
+         ("twins_misc", k_twins_misc)]
+
+EXACT_SIZE = {"namespace_twins"}
 
 # ways of invoking mage that must not influence what is accepted or which body runs: (flags, environment)
 MODES = {"plain": ([], {}), "-debug": (["-debug"], {}), "-v": (["-v"], {}), "MAGEFILE_DEBUG=1": ([], {"MAGEFILE_DEBUG": "1"}),
@@ -1041,7 +1108,9 @@ def generate(rng, reps, soups, hists=1):
         for kind, fn in KINDS:
             for c in (True, False):
                 P = Proj(rng, name(), kind, c)
-                if rng.random() < 0.5:
+                if kind in EXACT_SIZE and rng.random() < 0.7:
+                    fn(P, c)                               # the size is the point: nothing around it
+                elif rng.random() < 0.5:
                     fillers(P)
                     fn(P, c)
                 else:
